@@ -1926,6 +1926,12 @@ func (t *Topic) anotherUserSub(sess *Session, asUid, target types.Uid, asChan bo
 	now := types.TimeNow()
 	set := pkt.Set
 
+	if t.cat == types.TopicCatMe || t.cat == types.TopicCatFnd {
+		// Self and search topics admit only their own user: nobody else can be subscribed to them.
+		sess.queueOut(ErrPermissionDeniedReply(pkt, now))
+		return nil, errors.New("cannot subscribe another user to a 'me' or 'fnd' topic")
+	}
+
 	// Check if approver actually has permission to manage sharing
 	hostData, ok := t.perUser[asUid]
 	// Access mode of the person who is executing this approval process
